@@ -44,6 +44,7 @@ Dom1  == 0..255
 Dom31 == (0..17) \cup {100, 127, 128, 129, 254, 255}
 Bnd   == {0, 1, 2, 3, 7, 8, 9, 31, 32, 33, 127, 128, 255, 256, 257, 65535} \cup {0 - k : k \in 1..14}
 Bnd3  == {0, 1, 2, 8, 255, 256, 257, -1, -2, -3, -8}
+Tiny  == {0, 1}          \* RulesEmit.cfg: only prints the catalogue
 
 \* ---------------------------------------------------------------------------------------------
 \* Rules on one instruction (apply_transform).  x, y are arbitrary words.
